@@ -161,3 +161,59 @@ package httpscenario
 //@ nilsafe
 //@ requires g.base != nil
 //@ ensures [close-hook-runs-once] imp(g.base.OnClose != nil, calls(g.base.OnClose) == 1 && result == result_of(g.base.OnClose, 0)) && imp(g.base.OnClose == nil, result == nil)
+
+// ---------------------------------------------------------------- construction and registration (new.go, import.go)
+
+//@ func WrapGun
+//@ props C09 C10
+//@ modifies nothing
+//@ ensures [no-gun-no-wrapper] imp(g == nil, result == nil) && imp(g != nil, typeis(result, *gunWrapper) && result.(*gunWrapper).Gun == g)
+
+//@ func (g *gunWrapper) Shoot
+//@ props C09 C10 C15
+//@ requires g.Gun != nil && typeis(ammo, *Scenario)
+//@ may_panic true
+//@ at call g.Gun.Shoot assert [the-given-scenario] arg(ammo) == ammo0.(*Scenario)
+//@ ensures [one-shot-per-shot] calls(g.Gun.Shoot) == 1
+
+//@ func (g *gunWrapper) Bind
+//@ props C09 C10
+//@ requires g.Gun != nil
+//@ may_panic true
+//@ at call g.Gun.Bind assert [the-engine-s-aggregator-and-dependencies] arg(sample) == result_of(netsample.UnwrapAggregator, 0) && arg(deps) == deps0
+//@ ensures result == result_of(g.Gun.Bind, 0)
+
+//@ func newScenarioGun
+//@ props C09 C11
+//@ at call phttp.NewBaseGun assert [own-base-gun-from-the-given-config] arg(clientConstructor) == clientConstructor0 && arg(cfg) == cfg0 && arg(answLog) == answLog0
+//@ ensures fresh(result) && result.base == result_of(phttp.NewBaseGun, 0)
+
+//@ func NewHTTPGun
+//@ props C09
+//@ at call newScenarioGun assert arg(cfg) == conf && arg(answLog) == answLog0
+
+//@ func NewHTTP2Gun
+//@ props C09 C19
+//@ ensures [no-http2-over-plain-tcp] iff(result1 != nil, !conf.SSL) && imp(result1 != nil, result0 == nil && calls(newScenarioGun) == 0)
+//@ at call newScenarioGun assert arg(cfg) == conf && arg(answLog) == answLog0
+
+//@ func Import#lit0
+//@ props C09
+//@ at call phttp.PreResolveTargetAddr assert [the-configured-target] arg(target) == conf.Target
+//@ at call answlog.Init assert [resolved-address-kept-whatever-the-lookup-said] conf.TargetResolved == result_of(phttp.PreResolveTargetAddr, 0) && arg(path) == conf.AnswLog.Path && arg(enabled) == conf.AnswLog.Enabled
+
+//@ func Import#lit0#lit0
+//@ props C09
+//@ may_panic true
+//@ at call NewHTTPGun assert [the-gun-s-own-configuration] arg(conf) == conf && arg(answLog) == answLog
+
+//@ func Import#lit1
+//@ props C09
+//@ at call phttp.PreResolveTargetAddr assert [the-configured-target] arg(target) == conf.Target
+//@ at call answlog.Init assert [resolved-address-kept-whatever-the-lookup-said] conf.TargetResolved == result_of(phttp.PreResolveTargetAddr, 0) && arg(path) == conf.AnswLog.Path && arg(enabled) == conf.AnswLog.Enabled
+
+//@ func Import#lit1#lit0
+//@ props C09
+//@ may_panic true
+//@ at call NewHTTP2Gun assert [the-gun-s-own-configuration] arg(conf) == conf && arg(answLog) == answLog
+//@ ensures [construction-failure-is-returned] result1 == result_of(NewHTTP2Gun, 1)
